@@ -304,10 +304,12 @@ func (c *Collection) PullID(ctx context.Context, id string, opts ...ReadOption) 
 	send := make(chan *ValueChange)
 	// the underlying Pull must end when we do (i.e. when the item is removed), otherwise nobody drains it
 	ctx, stop := context.WithCancel(ctx)
+	// subscribe before returning, a removal that happens right after this call must not be missed
+	changes := c.Pull(ctx, opts...)
 	go func() {
 		defer close(send)
 		defer stop()
-		for change := range c.Pull(ctx, opts...) {
+		for change := range changes {
 			if change.Id != id {
 				continue
 			}
